@@ -478,6 +478,7 @@ class Program:
                     continue
                 seen.add(key)
                 F = Function(f, src)
+                F.prog = self
                 self.all_functions.append(F)
                 self.functions.setdefault(F.name, F)
                 self.functions["%s@%s" % (F.name, os.path.basename(F.file))] = F
